@@ -52,6 +52,7 @@ func (bucket *Bucket) Close(_ context.Context) {
 	traceEnter("Bucket.Close", "%s", bucket)
 
 	unregisterBucket(bucket)
+	verifPoint("close.unregistered", bucket.name)
 
 	bucket.mutex.Lock()
 	defer bucket.mutex.Unlock()
